@@ -192,6 +192,9 @@ def _work(spec):
 def _plan(chk, tier):
     """Round-robin over arms in chunks so that a wall cap truncates all arms alike."""
     arms = chk.arms(tier)
+    scale = float(os.environ.get("VERIF_SCALE", "1"))
+    if scale != 1:
+        arms = [(a, max(1, int(n * scale))) for a, n in arms]
     pos = {a: 0 for a, _ in arms}
     todo = dict(arms)
     specs = []
@@ -312,8 +315,9 @@ def run_check(pid, tier, seed, budget_s=None, workers=None, digests_out=None, st
         exit_code = 2
     wall = time.time() - t0
     ev = evidence_doc(chk, tier, seed, agg, wall, reported, truncated, total_planned, workers)
-    os.makedirs(os.path.join(VERIF_DIR, "evidence"), exist_ok=True)
-    with open(os.path.join(VERIF_DIR, "evidence", pid + ".json"), "w") as f:
+    evdir = os.environ.get("VERIF_EVIDENCE_DIR") or os.path.join(VERIF_DIR, "evidence")
+    os.makedirs(evdir, exist_ok=True)
+    with open(os.path.join(evdir, pid + ".json"), "w") as f:
         json.dump(core.canon(ev), f, indent=1, sort_keys=True)
     if digests_out:
         with open(digests_out, "w") as f:
